@@ -22,7 +22,7 @@ REQUIRED = {'exact-fixed-rank': 60, 'exact-growing': 60, 'cache-same-cores': 100
     'cache-counters': 100, 'cache-contents': 100, 'info-r': 200,
     'info-e_vld': 100, 'info-e': 200, 'shape': 200,
     'exact-when-interrupted': 100, 'rank-growth': 60,
-    'objective-arrays-untouched': 60}
+    'objective-arrays-untouched': 60, 'info-history': 100}
 ASSUMPTIONS = ['objective = dense table lookup, so values do not depend on '
     'the batch they are requested in (needed for the bitwise cache claim)',
     'targets with sigma_rho/sigma_1 < 1e-5 in an unfolding are not judged '
@@ -388,6 +388,34 @@ def run_case(case, ctx):
                 cache0[k] == float(T[k]) for k in rows0), 'nswp=0 run: cache '
                 f'holds {len(cache0)} keys, {len(rows0)} indices evaluated')
             ctx.event('nswp-zero-run')
+
+    # (1c) what an EARLIER run left in the info dictionary: a budgeted run,
+    # then the run of (1) again with the same dictionary object (and once with
+    # the library's shared default dictionary): the second run is a run of its
+    # own arguments - same sweeps, same cores as with a fresh dictionary
+    if plain.error is None and plain.evaluated > 4:
+        shared = {}
+        mb = int(rng.integers(2, max(3, plain.evaluated // 2)))
+        kwb = {k: v for k, v in kw.items() if k not in ('nswp', 'e')}
+        first = crossh.execute(crossh.Run(T), Y0, m=mb, info=shared, **kwb)
+        second = crossh.execute(crossh.Run(T), Y0, info=shared, **kw)
+        if first.error is None and second.error is None:
+            ctx.check('info-history', same_cores(second.result, plain.result)
+                and second.evaluated == plain.evaluated, lambda: 'a run whose '
+                f'info dictionary had been used by a budgeted run (m={mb}) '
+                f'before evaluated {second.evaluated} indices (stop '
+                f'{second.info.get("stop")!r}), with a fresh dictionary '
+                f'{plain.evaluated} (stop {plain.info.get("stop")!r}); cores '
+                f'equal: {same_cores(second.result, plain.result)}', shape=n)
+        f2 = crossh.execute(crossh.Run(T), Y0, pass_info=False, m=mb, **kwb)
+        s2 = crossh.execute(crossh.Run(T), Y0, pass_info=False, **kw)
+        if f2.error is None and s2.error is None:
+            ctx.check('info-history', same_cores(s2.result, plain.result)
+                and s2.evaluated == plain.evaluated, lambda: 'a run with the '
+                'default info dictionary after a budgeted run with the default '
+                f'dictionary evaluated {s2.evaluated} indices, a run with a '
+                f'fresh dictionary {plain.evaluated}; cores equal: '
+                f'{same_cores(s2.result, plain.result)}', shape=n)
 
     # (2) cache differential
     ip, ic = plain.info, cached.info
